@@ -5,9 +5,11 @@ package main
 import (
 	"fmt"
 	"math/rand"
+	"os"
 	"strings"
 
 	"github.com/gittuf/gittuf/pkg/githash"
+	"github.com/gittuf/gittuf/pkg/gitinterface"
 	"github.com/gittuf/gittuf/pkg/gitstore"
 	"github.com/gittuf/gittuf/pkg/rsl"
 )
@@ -336,5 +338,93 @@ func runC17(c *runCtx) error {
 		}
 	}
 	c.extra["two_writer_interleavings_enumerated"] = exhaustive2
+	// real git, real gitinterface.Repository.Commit: writer B runs entirely inside writer A's window
+	// between reading the tip and compare-and-setting the ref
+	nReal := 0
+	for _, np := range []int{0, 0, 1, 2} {
+		for _, kinds := range [][2]string{{"ref", "ref"}, {"ref", "ann"}, {"ann", "ref"}} {
+			if np == 0 && (kinds[0] == "ann" || kinds[1] == "ann") {
+				continue
+			}
+			if err := runC17Real(c, np, kinds, nReal); err != nil {
+				return err
+			}
+			nReal++
+		}
+	}
+	c.extra["real_git_preemption_scenarios"] = nReal
+	return nil
+}
+
+func runC17Real(c *runCtx, np int, kinds [2]string, n int) error {
+	repoA, dir, err := newRealRepo(c, fmt.Sprintf("c17-%d", n), false)
+	if err != nil {
+		return err
+	}
+	defer os.RemoveAll(dir)
+	repoB, err := gitinterface.LoadRepository(dir)
+	if err != nil {
+		return err
+	}
+	rsl.VerifResetCache()
+	ids := newFixedIDs()
+	tr := rand.New(rand.NewSource(int64(n) + 77))
+	tgt := func() githash.Hash { h := randHash(tr); ids.target(h); return h }
+	chain := []githash.Hash{}
+	prefixTerms := []string{}
+	for k := 0; k < np; k++ {
+		op := &logOp{Kind: "ref", Ref: c04Refs[k%len(c04Refs)], Target: tgt(), Numbered: true}
+		if err := op.apply(repoA); err != nil {
+			return err
+		}
+		tip, _ := repoA.GetReference(rsl.Ref)
+		chain = append(chain, tip)
+		ids.of(tip)
+		prefixTerms = append(prefixTerms, op.coq(ids.idMap))
+	}
+	mk := func(kind string) *logOp {
+		if kind == "ann" {
+			return &logOp{Kind: "ann", Targets: []githash.Hash{chain[tr.Intn(len(chain))]}, Skip: true, Numbered: true}
+		}
+		return &logOp{Kind: "ref", Ref: c04Refs[tr.Intn(len(c04Refs))], Target: tgt(), Numbered: true}
+	}
+	opA, opB := mk(kinds[0]), mk(kinds[1])
+	var errA, errB error
+	var tipAfterB githash.Hash
+	gitinterface.VerifSetNowHook(repoA, func() {
+		errB = opB.apply(repoB)
+		tipAfterB, _ = repoB.GetReference(rsl.Ref)
+	})
+	errA = opA.apply(repoA)
+	rsl.VerifResetCache()
+	tip, _ := repoA.GetReference(rsl.Ref)
+	g, err := walkGraph(repoA, tip)
+	if err != nil {
+		return err
+	}
+	obs := func(e error, t githash.Hash) string {
+		if e != nil {
+			return "OFail"
+		}
+		return "(OOk " + ids.coq(t) + ")"
+	}
+	// B's commit is created before A's: number it first, as the model allocates ids
+	if errB == nil {
+		ids.of(tipAfterB)
+	}
+	tipTerm := "None"
+	if !tip.IsZero() {
+		tipTerm = "(Some " + ids.coq(tip) + ")"
+	}
+	aTip := tip
+	if errA != nil {
+		aTip = githash.ZeroHash
+	}
+	term := fmt.Sprintf("(C17Real %s %s [0;0;1;1;1;1;0;0] %s %s %s)", coqList(prefixTerms), coqList([]string{opA.coq(ids.idMap), opB.coq(ids.idMap)}),
+		coqList([]string{obs(errA, aTip), obs(errB, tipAfterB)}), coqStore(g, ids.idMap), tipTerm)
+	_, _, ferr := rsl.GetFirstEntry(repoA)
+	c.add(term, sideCase{Class: "real-git/B-inside-A's-commit-window", Nontrivial: true, Key: keyOf(term),
+		Human: map[string]interface{}{"prefix": np, "writer A": fmt.Sprintf("%s => ok=%v", opA.human(ids.idMap), errA == nil), "writer B (runs between A's tip read and A's update-ref)": fmt.Sprintf("%s => ok=%v", opB.human(ids.idMap), errB == nil),
+			"log": humanStore(g, ids.idMap), "readers_can_walk": ferr == nil}})
 	return nil
 }
